@@ -239,3 +239,33 @@ func VH_C16_serialise() {
 	vhUnchanged(a, sa, "operands-unmodified")
 	vrtReach("roundtrip")
 }
+
+// VH_C16_serialise_long_id: node ids up to the documented bound (256 bytes, the
+// longest Increment accepts) survive serialisation like short ones.
+func VH_C16_serialise_long_id() {
+	lens := []int{1, 2, 127, 128, 254, 255, 256}
+	l := lens[vrtChoose(len(lens))]
+	id := make([]byte, l)
+	for i := range id {
+		id[i] = 'a' + byte(i%26)
+	}
+	v := NewVersionVector()
+	v2, err := v.Increment(string(id))
+	vrtAssert(err == nil, "increment-accepts-documented-id-length")
+	c := vrtUint64()
+	vrtAssume(c >= 1 && c <= maxCounterValue)
+	v2.m[string(id)] = c
+	if vrtChoose(2) == 1 {
+		v2.m["n-b"] = 7
+	}
+	v2.dirty = true
+	w := messages.NewWriter()
+	vrtAssert(WriteVersionVector(w, v2) == nil, "write-ok")
+	got, err := ReadVersionVector(messages.NewReader(w.Bytes()))
+	vrtAssert(err == nil, "read-ok")
+	vrtAssert(len(got.m) == len(v2.m) && got.m[string(id)] == c, "roundtrip-same-entries")
+	vrtAssert(got.Equal(v2) && v2.Equal(got), "roundtrip-equal")
+	if l == 256 {
+		vrtReach("longest-id")
+	}
+}
